@@ -235,12 +235,13 @@ func (gb GenBank) String() string {
 	keywords = AddPrefix(keywords, indent)
 	b.WriteString("KEYWORDS    " + keywords + "\n")
 
-	source := wrap.Space(gb.Fields.Source.Species, 67)
-	source = AddPrefix(source, indent)
+	// SOURCE and the organism name are written as they are: the reader keeps
+	// the line breaks of the one and takes the other to end with its line,
+	// so wrapping them here would change both.
+	source := AddPrefix(gb.Fields.Source.Species, indent)
 	b.WriteString("SOURCE      " + source + "\n")
 
-	organism := wrap.Space(gb.Fields.Source.Name, 67)
-	organism = AddPrefix(organism, indent)
+	organism := AddPrefix(gb.Fields.Source.Name, indent)
 	b.WriteString("  ORGANISM  " + organism + "\n")
 
 	taxon := wrap.Space(strings.Join(gb.Fields.Source.Taxon, "; ")+".", 67)
